@@ -43,7 +43,7 @@ def simplify_specifiers(spec):
         if i.operator == '==':
             if eq is None:
                 eq = i
-            elif eq != i:  # pragma: no branch
+            elif Version(eq.version) != Version(i.version):
                 raise err()
         elif i.operator == '!=':
             ne.append(i)
